@@ -41,6 +41,7 @@ type world struct {
 	release  chan struct{} // closed to let the healthy items finish
 	released atomic.Bool
 
+	chanSet      atomic.Bool  // the error reporting channel is registered
 	stopTimeouts atomic.Int32 // modules.stop.timeout hook hits
 	stopTOSnap   atomic.Value // string: counters at the moment of the timeout
 	stopTOLeak   atomic.Bool  // a counter / the control-function flag was still set then
@@ -66,7 +67,9 @@ func newWorld(sp caseSpec, dir string) *world {
 	api.EnableServer = sp.Part == "api"
 	// the sink of the property: a buffered channel with a permanent receiver
 	w.repCh = make(chan *modules.ModuleError, 256)
-	modules.SetErrorReportingChannel(w.repCh)
+	if sp.RepCfg == "" || sp.RepCfg == "chan" {
+		w.setChannel()
+	}
 	modules.SetStdErrReporting(sp.StdErr)
 	go func() {
 		for me := range w.repCh {
@@ -97,6 +100,23 @@ func newWorld(sp caseSpec, dir string) *world {
 		vhook.Set("modules.task.defer", func(_, _ string) { time.Sleep(d) })
 	}
 	return w
+}
+
+// setChannel registers the error reporting channel.
+func (w *world) setChannel() {
+	if w.chanSet.CompareAndSwap(false, true) {
+		modules.SetErrorReportingChannel(w.repCh)
+		w.log.Rec("call", "driver", "SetErrorReportingChannel", nil)
+	}
+}
+
+// quietKind: with stderr reporting off and no channel registered nobody "listens";
+// such cases are their own class in the violation signature.
+func (w *world) quietKind(kind string) string {
+	if !w.spec.StdErr && !w.chanSet.Load() {
+		return kind + "/quiet"
+	}
+	return kind
 }
 
 func (w *world) check(oracle, kind, value string, ok bool, what string, detail any) {
@@ -145,7 +165,10 @@ func (w *world) count(k string, n int64) {
 // behind must not keep it alive).
 func (w *world) finish() {
 	w.mu.Lock()
-	for _, me := range w.reports {
+	for i, me := range w.reports {
+		if i >= 40 {
+			break
+		}
 		w.out.Reports = append(w.out.Reports, reportObs{Module: me.ModuleName, TaskName: me.TaskName, TaskType: me.TaskType,
 			Severity: me.Severity, Message: trunc(safeString(func() string { return me.Message }), 200),
 			ValueType: typeOf(me.PanicValue), StackLen: len(me.StackTrace)})
@@ -370,6 +393,13 @@ func (w *world) nReports() int { w.mu.Lock(); defer w.mu.Unlock(); return len(w.
 // the report identifies itself as a panic, carries the value and a stack trace) for one
 // panic occurrence. taskOK tells whether a task name is the item's.
 func (w *world) checkReported(kind string, v *pvalue, module string, taskOK func(string) bool, ret *modules.ModuleError) {
+	if !w.chanSet.Load() {
+		w.checkViaLast(kind, v, module, taskOK, ret)
+		if w.spec.RepCfg == "late" {
+			w.setChannel() // later panics of the case are observed through the channel
+		}
+		return
+	}
 	var sawCandidate *modules.ModuleError
 	found := waitFor(waitSettle, func() bool {
 		me := w.claimReport(func(me *modules.ModuleError) bool {
@@ -421,6 +451,46 @@ func (w *world) checkReported(kind string, v *pvalue, module string, taskOK func
 		"GetLastReportedError returned neither the report of this panic nor a later one", nil)
 }
 
+// checkViaLast: no reporting channel is registered, so the channel clause does not
+// apply; the converted error is still what GetLastReportedError hands out (unless a
+// later report replaced it, as the lifecycle passes do with their own error message).
+// It must identify the panic and carry value and stack trace in every configuration.
+func (w *world) checkViaLast(kind string, v *pvalue, module string, taskOK func(string) bool, ret *modules.ModuleError) {
+	w.count("panics_without_channel", 1)
+	if w.spec.Part == "life" {
+		return // replaced at once by the pass' own "start/stop module" error report
+	}
+	qk := w.quietKind(kind)
+	var me *modules.ModuleError
+	found := waitFor(waitSettle, func() bool {
+		l := modules.GetLastReportedError()
+		if l == nil || l.ModuleName != module || !taskOK(l.TaskName) {
+			return false
+		}
+		if ret != nil && l != ret {
+			return false
+		}
+		me = l
+		return true
+	})
+	if !found {
+		l := modules.GetLastReportedError()
+		if n, _ := inflight(); l == nil && n == 0 {
+			w.check("last-reported", qk, v.class, false, "GetLastReportedError returns nil after the panic was handled (no reporting channel registered)", nil)
+		} else {
+			w.undecided("last-reported", qk, v.class, "GetLastReportedError does not (yet) hand out the error of this panic; no reporting channel is registered to observe it otherwise")
+		}
+		return
+	}
+	w.check("last-reported", qk, v.class, true, "", nil)
+	okV, why := v.matches(me.PanicValue)
+	w.check("wrong-report", qk, v.class, me.Severity == "panic" && okV,
+		fmt.Sprintf("the error handed out by GetLastReportedError does not identify the panic: severity=%q, PanicValue: %s", me.Severity, why), nil)
+	w.check("no-stack", qk, v.class, strings.Contains(me.StackTrace, "raiseVerifPanic"),
+		fmt.Sprintf("the panic error (GetLastReportedError; stderr reporting %v, no reporting channel) carries a StackTrace of %d bytes that does not contain the panicking function", w.spec.StdErr, len(me.StackTrace)),
+		map[string]any{"stack": trunc(me.StackTrace, 1200)})
+}
+
 // checkReturned decides the clause "returned by the blocking run variants".
 func (w *world) checkReturned(kind string, v *pvalue, err error) *modules.ModuleError {
 	if err == nil {
@@ -436,8 +506,8 @@ func (w *world) checkReturned(kind string, v *pvalue, err error) *modules.Module
 	okV, why := v.matches(me.PanicValue)
 	w.check("wrong-return", kind, v.class, me.Severity == "panic" && okV,
 		fmt.Sprintf("the returned error does not identify the panic: severity=%q, PanicValue: %s", me.Severity, why), nil)
-	w.check("no-stack", kind, v.class, strings.Contains(me.StackTrace, "raiseVerifPanic"),
-		fmt.Sprintf("the returned error's StackTrace (%d bytes) does not contain the panicking function", len(me.StackTrace)),
+	w.check("no-stack", w.quietKind(kind), v.class, strings.Contains(me.StackTrace, "raiseVerifPanic"),
+		fmt.Sprintf("the returned error's StackTrace (%d bytes) does not contain the panicking function (stderr reporting %v, reporting channel registered %v)", len(me.StackTrace), w.spec.StdErr, w.chanSet.Load()),
 		map[string]any{"stack": trunc(me.StackTrace, 1200)})
 	return me
 }
